@@ -455,7 +455,7 @@ Proof. intro H; inversion H; reflexivity. Qed.
 
 Theorem step_sinv st e st' : SInv st -> step st e = ROk st' -> SInv st'.
 Proof.
-  intros H. destruct e as [c adm|c b totals|order|s b|c|s| |s|nodes newslots|ch]; cbn [step].
+  intros H. destruct e as [c adm|c b totals|order|s b|c|s| |s|nodes newslots|ch|da dd]; cbn [step].
   - destruct (lookup c (clients st)); intro E; apply ROk_inj in E; subst st'; [exact H|].
     eapply SInv_same; [apply same_s_set_client | exact H].
   - intro E; apply ROk_inj in E; subst st'. apply ensure_dials_sinv. unfold client_data.
@@ -473,6 +473,7 @@ Proof.
     + exact A.
   - intro E; apply ROk_inj in E; subst st'. eapply SInv_same; [|exact H]. repeat split.
   - intro E; apply ROk_inj in E; subst st'. eapply SInv_same; [|exact H]. repeat split.
+  - intro E; apply ROk_inj in E; subst st'. eapply SInv_same; [apply same_s_set_pools | exact H].
 Qed.
 
 Theorem run_sinv evs : forall st st', SInv st -> run st evs = ROk st' -> SInv st'.
